@@ -484,6 +484,21 @@ def check_decode(tier, out):
                         out.fail(f"{name}(text) != reference decoding", {"unquoter": name, "text": s}, got, want)
                         if out.full:
                             return
+    # (b2) results do not depend on earlier calls (C08): a text that ends in an incomplete escape
+    # sequence followed by a text that starts with continuation bytes, on the long-lived instances
+    tails = ("%E2%82", "%C3", "%F0%9F", "%F0%9F%98", "a%E2", "%e2%82", "%C3%")
+    heads = ("%AC", "%A9", "%98%80", "%80", "%82%AC", "a", "%ac", "", "%41")
+    for t1 in tails:
+        for h2 in heads:
+            if not out.mine():
+                continue
+            for name, cfg in UNQUOTER_CONFIGS.items():
+                real[name](t1)
+                got = real[name](h2)
+                want = ref_unquote(h2, **cfg)
+                if got != want:
+                    out.fail(f"{name}(text) depends on the previous call", {"unquoter": name, "previous": t1, "text": h2}, got, want)
+                    real[name]("a")
     # (c) accessor level: decoded accessors are the unquoters applied to the raw components
     comps = ("", "a", "a%2Fb", "a%2fb", "a%2Bb+c", "%C3%A9", "%c3%a9", "%E9", "%25", "a%3Db", "a%3db", "%zz", "é")
     for c in comps:
